@@ -26,6 +26,9 @@ RULE = ('finite core enumerated completely: events {SP, DT, HT, JT, WT} x gender
 ASSUMPTIONS = ['weights are compared as decimals (kg; grams for JT) after parsing the number back out of the built code']
 
 THROWS5 = ['SP', 'DT', 'HT', 'JT', 'WT']
+# the other generic throws of the vocabulary: today they pass through; should the library come to build weight-specific codes
+# for one of them, those are held to the same clauses (valid, normalised, the table's weight)
+OTHER_THROWS = ['SWT', 'BT', 'ST', 'GDT', 'CT', 'OT', 'SSP', 'SDT', 'SJT', 'SBT', 'TART', 'CHT', 'OHT']
 GROUP_OF = {'SP': 'spnum', 'DT': 'dtnum', 'HT': 'htnum', 'JT': 'jtnum', 'WT': 'wtnum'}
 
 
@@ -71,6 +74,18 @@ def examine_specific(case):
     out = []
     w = call(athlib.get_implement_weight, e, g, ag)
     r = call(athlib.get_specific_event_code, e, g, ag)
+    if e in OTHER_THROWS and r[0] == 'ret' and r[1] != e:
+        # a weight-specific code built for another throw: valid, normalised, of the same event, carrying the table's weight
+        code = r[1]
+        if not isinstance(code, str) or not codes.PAT_THROWS.match(code) or not athlib.check_event_code(code):
+            out.append(V('valid-throws-code', ['not-a-throws-code', 'other-throw'], case, code))
+            return out
+        n = call(athlib.normalize_event_code, code)
+        if n != ('ret', code):
+            out.append(V('already-normalised', ['not-normalised', 'other-throw'], case, [code, n]))
+        if not code.upper().startswith(e) or w[0] != 'ret' or not w[1]:
+            out.append(V('weight-matches-table', ['weight-mismatch', 'other-throw'], case, {'code': code, 'table': w[:2]}))
+        return out
     if e not in THROWS5:
         if r != ('ret', e):
             out.append(V('pass-through', ['pass-through', r[1] if r[0] == 'exc' else 'changed'], case, r, e))
@@ -227,6 +242,12 @@ def run(ctx):
     labels = produced_labels()
     ctx.extra['labels_produced_by_calc_uka_age_group'] = labels
     groups = sorted(set(labels) | set(TABLE_LABELS) | {'V115', 'V120'})
+    for e in OTHER_THROWS:
+        for g in ('M', 'F', 'X'):
+            for ag in groups:
+                ctx.count()
+                ctx.label('core-other-throws')
+                ctx.violations(examine_specific({'kind': 'specific', 'event': e, 'gender': g, 'group': ag}))
     for e in THROWS5:
         for g in ('M', 'F', 'X', 'm', ''):
             for ag in groups:
